@@ -132,6 +132,9 @@ func one(run *kit.Run, c caseFile, prog []hist.Op, k int, ending, id string) {
 		// reading through the transaction (Txn.Iter) resets its copy cache: every other execution leaves the
 		// transaction alone between its writes, so that defects which need the cache to survive are not masked
 		quiet := (k+len(ending))%2 == 1
+		// one committing execution in three never reads through the transaction at all, and is followed by
+		// single-operation writes instead of the other after-the-ending checks (see below)
+		silent := (k+len(ending))%3 == 0 && strings.HasPrefix(ending, "commit") && k > 0
 		body := func(txn *fox.Txn) {
 			w.Txn = txn
 			w.Pending = w.Committed.Clone()
@@ -153,7 +156,7 @@ func one(run *kit.Run, c caseFile, prog []hist.Op, k int, ending, id string) {
 					fail("isolation", "after step %d (%s) of the open transaction the router no longer routes like the committed state: %s", i, op, d)
 					return
 				}
-				if quiet && i < k-1 {
+				if silent || quiet && i < k-1 {
 					continue
 				}
 				// the transaction reads its own writes
@@ -169,7 +172,7 @@ func one(run *kit.Run, c caseFile, prog []hist.Op, k int, ending, id string) {
 			}
 			// a snapshot of the write transaction is read-only: writing through it, committing or aborting it has no effect
 			// on the router, on the parent transaction or on the writer lock
-			if k > 0 && !quiet {
+			if k > 0 && !quiet && !silent {
 				snap := txn.Snapshot()
 				if snap == nil {
 					fail("snapshot", "Snapshot() of an open write transaction returned nil")
@@ -279,6 +282,50 @@ func one(run *kit.Run, c caseFile, prog []hist.Op, k int, ending, id string) {
 		}
 		if d := w.RoutingProblem(w.F, final); d != "" {
 			fail("atomicity", "after the ending the router does not route like the state it must show (all writes after a commit, none otherwise): %s", d)
+		}
+		// Commit publishes the transaction's nodes for good: readers created now stay at this version while
+		// single-operation writes (Router.Update/Handle/Delete, each a transaction of its own) go through the very
+		// nodes the transaction created
+		if silent {
+			w.Committed, w.Pending, w.Txn = final, nil, nil
+			rt0 := w.F.Txn(false)
+			defer rt0.Abort()
+			it0 := w.F.Iter()
+			snapTxn := w.Observe(rt0)
+			snapIt := hist.ObserveIter(rt0, it0, c.Methods, w.Universe, nil)
+			wrote := 0
+			for _, op := range prog[:k] {
+				if op.Bad != "" {
+					continue
+				}
+				switch op.Kind {
+				case "handle", "handleroute", "update", "updateroute":
+					w.Apply(hist.Op{Kind: "update", Method: op.Method, Pattern: op.Pattern})
+				case "delete":
+					w.Apply(hist.Op{Kind: "handle", Method: op.Method, Pattern: op.Pattern})
+				default:
+					continue
+				}
+				wrote++
+			}
+			for i, p := range c.Pool {
+				if i%2 == k%2 {
+					w.Apply(hist.Op{Kind: "handle", Method: c.Methods[i%len(c.Methods)], Pattern: p})
+					w.Apply(hist.Op{Kind: "delete", Method: c.Methods[(i+1)%len(c.Methods)], Pattern: p})
+					wrote += 2
+				}
+			}
+			run.Count("single_writes_after_a_committed_transaction", int64(wrote))
+			if got := w.Observe(rt0); got != snapTxn {
+				fail("later-writes-visible", "a read-only transaction opened after the Commit changed when later single-operation writes were made\n%s", hist.Diff(snapTxn, got))
+			}
+			if got := hist.ObserveIter(rt0, it0, c.Methods, w.Universe, nil); got != snapIt {
+				fail("later-writes-visible", "an iterator created after the Commit changed when later single-operation writes were made\n%s", hist.Diff(snapIt, got))
+			}
+			if want, got := w.Expect(w.Committed), w.Observe(w.F); want != got {
+				fail("later-writes-lost", "after the single-operation writes that followed the Commit the router does not show their result\n%s", hist.Diff(want, got))
+			}
+			return
 		}
 		// the settled write transaction refuses further use
 		for name, f := range map[string]func(){
